@@ -84,23 +84,23 @@ let show_out = function
   | OCancelled v -> "Cancelled:" ^ sn v | OVal v -> "Val:" ^ sn v | OROk v -> "ROk:" ^ sn v
   | ORErr -> "RErr" | OPanic p -> "PANIC:" ^ show_panic p
 
-let show_tok = function
-  | KAct a -> ">" ^ show_act a
+let show_tok (f : nat) (t : n tok) : string =
+  match t with
   | KOut o -> "=" ^ show_out o
-  | KFnew f -> "fnew:" ^ sf f
-  | KTake (f, e) -> "take:" ^ sym f e
-  | KWrite (f, c) -> "fwrite:" ^ sym f EW ^ "=" ^ sn c
-  | KRead (f, c) -> "fread:" ^ sym f ER ^ "=" ^ sn c
-  | KCancel (f, e, c) -> "fcancel" ^ se e ^ ":" ^ sym f e ^ "=" ^ sn c
-  | KDropEnd (f, e) -> "fdrop" ^ se e ^ ":" ^ sym f e
-  | KJoin (f, e, s) -> "join:" ^ sym f e ^ ":" ^ (if s then "1" else "0")
+  | KFnew -> "fnew:" ^ sf f
+  | KTake e -> "take:" ^ sym f e
+  | KWrite c -> "fwrite:" ^ sym f EW ^ "=" ^ sn c
+  | KRead c -> "fread:" ^ sym f ER ^ "=" ^ sn c
+  | KCancel (e, c) -> "fcancel" ^ se e ^ ":" ^ sym f e ^ "=" ^ sn c
+  | KDropEnd e -> "fdrop" ^ se e ^ ":" ^ sym f e
+  | KJoin (e, s) -> "join:" ^ sym f e ^ ":" ^ (if s then "1" else "0")
   | KWsnew -> "wsnew"
-  | KWspoll (f, e, ev, c) -> "wspoll=" ^ sn ev ^ "," ^ sym f e ^ "," ^ sn c
-  | KTreg (f, e) -> "treg:" ^ sym f e
-  | KTunreg (f, e) -> "tunreg:" ^ sym f e
+  | KWspoll (e, ev, c) -> "wspoll=" ^ sn ev ^ "," ^ sym f e ^ "," ^ sn c
+  | KTreg e -> "treg:" ^ sym f e
+  | KTunreg e -> "tunreg:" ^ sym f e
   | KTclone -> "tclone"
   | KTdrop -> "tdrop"
-  | KTdeliver (f, e, c) -> "tdeliver:" ^ sym f e ^ ":" ^ sn c
+  | KTdeliver (e, c) -> "tdeliver:" ^ sym f e ^ ":" ^ sn c
   | KLower v -> "lower:" ^ sn v
   | KLift v -> "lift:" ^ sn v
   | KRelift v -> "relift:" ^ sn v
@@ -111,6 +111,10 @@ let show_tok = function
   | KAreaM -> "area-"
   | KWake -> "wake"
   | KTrap t -> "TRAP:" ^ show_trap t
+
+let show_entry = function
+  | EAct a -> ">" ^ show_act a
+  | ETok (f, t) -> show_tok f t
 
 let show_summary (s : summary) : string =
   let base =
@@ -133,8 +137,6 @@ let parse_line (l : string) : (bool * act list) option =
       else Some (v = "v2", List.map (function Some a -> a | None -> assert false) acts)
   | _ -> None
 
-let lst l = "[" ^ String.concat "," (List.map sn l) ^ "]"
-
 let () =
   let ghost = Array.length Sys.argv > 1 && Sys.argv.(1) = "ghost" in
   Util.iter_lines (fun l ->
@@ -143,12 +145,15 @@ let () =
       | Some (v2, tr) ->
           if ghost then begin
             let s = exec v2 tr in
+            let sv = function VUser -> "U" | VDefault -> "D" | VPeer -> "P" | VJunk -> "J" in
+            let lst l = "[" ^ String.concat "," (List.map sv l) ^ "]" in
             String.concat " ; "
-              (List.mapi (fun i f ->
-                   Printf.sprintf "%d: imp=%b dropw=%d dropr=%d got=%s sent=%s wvals=%s xfer=%s peer=%s quiescent=%b" i f.f_imp
-                     (int_of_nat f.fg.n_dropw) (int_of_nat f.fg.n_dropr) (lst f.fg.got) (lst f.fg.sent)
-                     (lst f.fg.wvals) (lst f.fg.xfer) (lst f.fh.peer_recv) (quiescent_fut f)) s.futs)
+              (List.mapi (fun i sf ->
+                   let f = sf.core in
+                   Printf.sprintf "%d: imp=%b dropw=%d dropr=%d taker=%d got=%s sent=%s xfer=%s peer=%s quiescent=%b" i f.f_imp
+                     (int_of_nat f.fg.n_dropw) (int_of_nat f.fg.n_dropr) (int_of_nat f.fg.n_taker) (lst f.fg.got) (lst f.fg.sent)
+                     (lst f.fg.xfer) (lst f.fh.peer_recv) (quiescent_fut f)) s.futs)
           end else begin
             let (toks, su) = run v2 tr in
-            String.concat " " (List.map show_tok toks) ^ " | " ^ show_summary su
+            String.concat " " (List.map show_entry toks) ^ " | " ^ show_summary su
           end)
